@@ -235,7 +235,8 @@ struct Model {
 		if (m.type == MSG_NODE_NEW) { c.connected = true; c.addr = m.addr; c.addr.push_back(m.data[1]); }
 		else {
 			c.connected = false;
-			if (b->is_iface()) for (auto &kv : conn) { if (kv.first == b->id) continue; const auto &a = kv.second.addr; if (a.size() > c.addr.size() && std::equal(c.addr.begin(), c.addr.end(), a.begin())) kv.second.connected = false; }
+			// (an interface that has not been seen since the last reset has no address: nothing is known to be beneath it)
+			if (b->is_iface() && !c.addr.empty()) for (auto &kv : conn) { if (kv.first == b->id) continue; const auto &a = kv.second.addr; if (a.size() > c.addr.size() && std::equal(c.addr.begin(), c.addr.end(), a.begin())) kv.second.connected = false; }
 		}
 	}
 
